@@ -8,6 +8,7 @@ global size_of usize == 8;
 //@ include prelude/std_specs.rs
 //@ include units/dltcore/part.rs
 //@ include units/verbarg/part.rs
+//@ include units/lifecycle/helpers.rs
 //@ include units/lifecycle/part.rs
 
 fn main() {}
